@@ -18,7 +18,8 @@ ASSUMPTIONS = [
     "sendto gives the enumerated answers (a datagram kernel never accepts part of a datagram; partial counts are included because "
     "the statement quantifies over them); system 'uxd': real uxd.PeerMemoer (uxd Peer.send errno mapping) over the same fake "
     "datagram socket installed as hio.core.uxd.uxding.socket, its Filer directory made in a private sandbox (TempHeadDir overridden)",
-    "grams are queued with gramit() (raw distinct byte strings of 4..6 bytes) on the real txgs queue; the transmit side is driven "
+    "grams are queued with gramit() (raw distinct byte strings of 4..6 bytes; in the 'shared' jobs ONE bytearray object queued for "
+    "every entry, as a caller fanning a gram out does) on the real txgs queue; the transmit side is driven "
     "through the public service calls only: service() (greedy, what MemoerDoer.recur calls) or serviceAllOnce() (one send per round)",
     "unreachable-class errnos are those Memoer._serviceOnceTxGrams documents as 'far peer problem' (ECONNREFUSED, EHOSTUNREACH here; "
     "all ten in a single-fault sweep); an unreachable answer drops the rest of the gram in flight and nothing else",
@@ -77,6 +78,10 @@ def jobs(tier):
         for greedy in (True, False):
             for li in range(len(LAYOUTS)):
                 js.append(("tree", system, greedy, li, DEPTH(tier)))
+    for system in SYSTEMS:          # the same bytearray object queued to two destinations / twice to one
+        for greedy in (True, False):
+            for li in (0, 1):
+                js.append(("tree", system, greedy, li, DEPTH(tier), "shared"))
     js = sharded(js, 2 if tier == "quick" else 8)
     for system in SYSTEMS:
         for greedy in (True, False):
@@ -87,10 +92,10 @@ def jobs(tier):
 class World:
     """reference bookkeeping shared by both systems: per-destination ideal sender fed with the observed calls and answers"""
 
-    def __init__(self, layout, answer_kind, pair=(DA, DB)):
+    def __init__(self, layout, answer_kind, pair=(DA, DB), shared=False):
         self.answer_kind = answer_kind      # callable(ncall, n) -> ("n", count) | ("e", errno)
         self.dsts = [pair[0] if d == 0 else pair[1] for d in layout]
-        self.grams = [GRAMS[i] for i in range(len(layout))]
+        self.grams = [GRAMS[0 if shared else i] for i in range(len(layout))]   # shared: one gram object fanned out to every entry
         self.pending = {}                   # dst -> list of [gram index, remaining bytes]
         for i, d in enumerate(self.dsts):
             self.pending.setdefault(d, []).append([i, self.grams[i]])
@@ -184,16 +189,17 @@ def _uxd_sandbox():
             yield sb
 
 
-def run_world(system, greedy, li, answer_kind, extra_rounds):
+def run_world(system, greedy, li, answer_kind, extra_rounds, shared=False):
     layout = LAYOUTS[li]
-    w = World(layout, answer_kind, pair=(UA, UB) if system == "uxd" else (DA, DB))
+    w = World(layout, answer_kind, pair=(UA, UB) if system == "uxd" else (DA, DB), shared=shared)
     escaped = None
     states = []
 
     def drive(peer):
         nonlocal escaped
+        obj = bytearray(w.grams[0]) if shared else None     # ONE bytearray object queued for every entry (fan-out by the caller)
         for i, g in enumerate(w.grams):
-            peer.gramit(g, w.dsts[i])
+            peer.gramit(obj if shared else g, w.dsts[i])
         rounds = extra_rounds + 2 * len(layout) + 4
         try:
             with ms.alarm():
@@ -281,7 +287,7 @@ def harness(job, ch):
             if ncall > depth:
                 return ("n", "all")
             return kinds[ch.choose(len(kinds), "send%d" % ncall)]
-        return run_world(system, greedy, li, answer_kind, depth)
+        return run_world(system, greedy, li, answer_kind, depth, shared=(len(job) > 5 and job[5] == "shared"))
     # single unreachable errno at one of the first `job[3]` sends, over all layouts
     li = ch.choose(len(LAYOUTS), "layout", cost=0)
     pos = 1 + ch.choose(job[3], "position", cost=0)
